@@ -75,7 +75,7 @@ def fam_life(seed, i):
             return rng.choice(base_scripts)
 
         p.scripts = scripts
-        sc["clients"][c] = p.run(rng.randint(1, 8))
+        sc["clients"][c] = p.run(rng.randint(1, 8), probes=rng.random() < 0.5)
     return sc
 
 
@@ -219,6 +219,7 @@ def fam_timeout(seed, i):
         # timers of the actor run alongside: an abandoned invocation must leave them (the actor's state) alone
         tk = [eff(rng.choice(["interval", "interval", "interval_with", "delayed_send"]), rng.randint(1, 3), f"t{k}") for k in range(rng.choice([1, 2]))]
         cfg["sscr"] = [cfg.get("sscr", [[]])[0] + tk]
+        cfg["tscr"] = rng.choice([[], [Y], [eff("sleep", 1)], [eff("sleep", 3)], [eff("sleep", 5)]])
         sc["horizon"] = 24
     ncl = rng.randint(1, 3)
     names = [f"c{k+1}" for k in range(ncl)]
@@ -265,7 +266,8 @@ def fam_timers(seed, i):
     if rng.random() < 0.2:
         # the restarted started() fails while timers of the previous incarnation are armed
         sscr.append([Y] * rng.choice([0, 1]) + [eff(rng.choice(["err", "panic"]))])
-    cfg = {"cap": rng.choice([-1, -1, 0, 1, 2]), "strat": strat, "pscr": [Y] * rng.choice([0, 1]), "sscr": sscr, "owning": rng.random() < 0.3}
+    cfg = {"cap": rng.choice([-1, -1, 0, 1, 2]), "strat": strat, "pscr": [Y] * rng.choice([0, 1]), "sscr": sscr, "owning": rng.random() < 0.3,
+           "tscr": rng.choice([[], [], [Y], [eff("sleep", 1)], [Y, eff("sleep", 2)]])}
     fault = rng.choice(["none", "none", "none", "panic", "cancel"])
     if fault == "cancel":
         sc["cancels"] = 1
@@ -548,13 +550,38 @@ def stream_infinite(sc, rng):
     return sc
 
 
+def stream_ticking(sc, rng):
+    """A stream-attached actor whose own interval ticks take at least a period to handle: its mailbox is never empty
+    again.  When the stream ends the actor must still finish - its timers may not keep it alive (C10, C13)."""
+    sc["max_steps"] = 420
+    sc["horizon"] = 600
+    sc["idle_only"] = False
+    per = rng.choice([1, 1, 2])
+    cfg = {"cap": rng.choice([-1, -1, 2]), "strat": "none", "stream": True, "items0": rng.randint(0, 2), "ended0": False,
+           "iscr": [Y] * rng.choice([0, 1]), "fscr": [Y] * rng.choice([0, 1]), "pscr": [Y] * rng.choice([0, 1]),
+           "sscr": [[eff(rng.choice(["interval", "interval_with"]), per, "t1")]], "tscr": [eff("sleep", 2 * per)], "owning": False}
+    names = ["c1"]
+    kinds = {"c1": rng.choice(["addr", "sender", "waddr"])}
+    main, handles = setup_main(rng, cfg, kinds, True, entry="builder")
+    sc["clients"]["main"] = main
+    # the stream ends when ticks have been piling up for a while
+    c1 = [{"op": "sleep", "d": 2 * per + rng.randint(1, 3)}]
+    if rng.random() < 0.5:
+        c1 += [{"op": "feed", "a": "a1", "d": rng.randint(1, 2)}, {"op": "sleep", "d": 1}]
+    c1 += [{"op": "end_stream", "a": "a1", "d": 1}, {"op": "sleep", "d": 2}]
+    sc["clients"]["c1"] = c1
+    return sc
+
+
 def fam_stream(seed, i):
     """C13: stream-attached actors; streams empty / finite / never-ending / never-ready / bursts under client control."""
     rng = random.Random(f"stream-{seed}-{i}")
     sc = base("stream", seed, i, rng, horizon=6)
-    shape = rng.choice(["empty", "finite", "finite", "neverending", "neverready", "bursts", "bursts", "infinite"])
+    shape = rng.choice(["empty", "finite", "finite", "neverending", "neverready", "bursts", "bursts", "infinite", "ticking"])
     if shape == "infinite":
         return stream_infinite(sc, rng)
+    if shape == "ticking":
+        return stream_ticking(sc, rng)
     items0 = {"empty": 0, "finite": rng.randint(1, 4), "neverending": rng.randint(0, 3), "neverready": 0, "bursts": rng.randint(0, 2)}[shape]
     ended0 = shape in ("empty", "finite")
     cfg = {"cap": rng.choice([-1, -1, 0, 1, 2]), "strat": "none", "stream": True, "items0": items0, "ended0": ended0,
@@ -562,6 +589,10 @@ def fam_stream(seed, i):
            "sscr": [[Y] * rng.choice([0, 1, 1, 2, 3])], "owning": rng.random() < 0.3}
     if rng.random() < 0.08:
         cfg["sscr"] = [[eff("err")]]
+    if rng.random() < 0.2 and cfg["sscr"] == [[Y] * len(cfg["sscr"][0])]:
+        # the actor's own timers tick into the mailbox next to the stream
+        cfg["sscr"] = [cfg["sscr"][0] + [eff(rng.choice(["interval", "interval_with", "delayed_send"]), rng.randint(1, 2), f"t{k}") for k in range(rng.choice([1, 2]))]]
+        sc["horizon"] = 10
     slow = rng.random() < 0.25
     if slow:
         # a handler timeout configured on the builder before the stream is attached: stream-attached actors run
